@@ -3,6 +3,7 @@ package c10
 
 import (
 	"bytes"
+	"fmt"
 	"strings"
 	"testing"
 
@@ -24,6 +25,36 @@ type nameCase struct {
 
 func trimSpaces(b []byte) []byte { return bytes.TrimRight(b, " ") }
 
+// nameEq: "decodes back to the same name". The encoding pads to 16 bytes with spaces, so it cannot
+// tell a name from the same name with (more or fewer) trailing spaces: a name that ends in a space
+// is compared modulo trailing spaces, every other name must come back byte for byte (not padded).
+func nameEq(got string, want []byte) bool {
+	if n := len(want); n > 0 && want[n-1] == ' ' {
+		return bytes.Equal(trimSpaces([]byte(got)), trimSpaces(want))
+	}
+	return got == string(want)
+}
+
+// scopeLabels: the labels a scope identifier stands for on the wire (RFC 1002 4.1), "" = none.
+func scopeLabels(scope string) []string {
+	if scope == "" {
+		return nil
+	}
+	return strings.Split(scope, ".")
+}
+
+func sameLabels(a, b []string) bool {
+	if len(a) != len(b) {
+		return false
+	}
+	for i := range a {
+		if a[i] != b[i] {
+			return false
+		}
+	}
+	return true
+}
+
 func checkName(c nameCase) []vf.Finding {
 	var fs []vf.Finding
 	n := &nbtns.NetBIOSName{Name: string(c.Name), ScopeID: c.Scope}
@@ -44,14 +75,14 @@ func checkName(c nameCase) []vf.Finding {
 		fs = append(fs, vf.F("nbtns.FirstLevelDecode", "own-encoding-rejected", "%q: %v", enc, err))
 		return fs
 	}
-	if !bytes.Equal(trimSpaces([]byte(dec.Name)), trimSpaces(c.Name)) {
+	if !nameEq(dec.Name, c.Name) {
 		fs = append(fs, vf.F("nbtns.FirstLevelDecode", "name-not-preserved", "%x -> %q -> %x", []byte(c.Name), enc, []byte(dec.Name)))
 	}
 	if dec.ScopeID != c.Scope {
 		fs = append(fs, vf.F("nbtns.FirstLevelDecode", "scope-not-preserved", "%q -> %q", c.Scope, dec.ScopeID))
 	}
 	// the decoder also has to read the reference encoding
-	if d2, err := nbtns.FirstLevelDecode(wantFull); err != nil || d2 == nil || !bytes.Equal(trimSpaces([]byte(d2.Name)), trimSpaces(c.Name)) {
+	if d2, err := nbtns.FirstLevelDecode(wantFull); err != nil || d2 == nil || !nameEq(d2.Name, c.Name) || d2.ScopeID != c.Scope {
 		fs = append(fs, vf.F("nbtns.FirstLevelDecode", "rfc1001-encoding-misread", "%q: %v", wantFull, err))
 	}
 	return fs
@@ -168,7 +199,7 @@ func (c pktCase) lib() *nbtns.NBTNSPacket {
 }
 
 func sameName(got *nbtns.NetBIOSName, want nameCase) bool {
-	return got != nil && bytes.Equal(trimSpaces([]byte(got.Name)), trimSpaces(want.Name)) && got.ScopeID == want.Scope
+	return got != nil && nameEq(got.Name, want.Name) && got.ScopeID == want.Scope
 }
 
 func checkPacketRoundtrip(c pktCase) []vf.Finding {
@@ -246,8 +277,14 @@ func checkRefParse(c pktCase) []vf.Finding {
 			fs = append(fs, vf.F("NBTNSPacket.Marshal", "name-not-rfc1002-label-sequence", "%s: %v (labels %q)", where, err, n))
 			return
 		}
-		if !bytes.Equal(trimSpaces(rn.Raw), trimSpaces(want.Name)) || rn.Scope != want.Scope {
-			fs = append(fs, vf.F("NBTNSPacket.Marshal", "name-differs-under-rfc1002-parser", "%s: got %x scope %q want %x scope %q", where, rn.Raw, rn.Scope, []byte(want.Name), want.Scope))
+		// on the wire the name is always the 16 padded bytes; the scope is compared label by label
+		padded := []byte("                ")
+		copy(padded, want.Name)
+		if !bytes.Equal(rn.Raw, padded) {
+			fs = append(fs, vf.F("NBTNSPacket.Marshal", "name-differs-under-rfc1002-parser", "%s: got %x want %x", where, rn.Raw, padded))
+		}
+		if !sameLabels(rn.ScopeLabels, scopeLabels(want.Scope)) {
+			fs = append(fs, vf.F("NBTNSPacket.Marshal", "scope-labels-differ-under-rfc1002-parser", "%s: got labels %q want %q", where, rn.ScopeLabels, scopeLabels(want.Scope)))
 		}
 	}
 	if len(m.Questions) != len(c.Questions) || len(m.Answers) != len(c.Answers) || len(m.Authority) != len(c.Authority) || len(m.Additional) != len(c.Additional) {
@@ -275,8 +312,33 @@ func checkRefParse(c pktCase) []vf.Finding {
 	return fs
 }
 
+// rarely is true in roughly pct/2 percent of the draws (pct <= 50): rapid's integer generators
+// favour small values and the ends of a range, the middle of 0..99 is flat at ~0.5 % per value;
+// shrinking moves towards 0 = "not this time".
+func rarely(t *rapid.T, label string, pct int) bool {
+	v := rapid.IntRange(0, 99).Draw(t, label)
+	return v >= 40 && v < 40+pct
+}
+
+// bigCounts are section sizes around the point where a count stops fitting 8 bits.
+var bigCounts = []int{255, 256, 257, 300}
+
 func genPkt(t *rapid.T, maxRData int) pktCase {
 	c := pktCase{ID: rapid.Uint16().Draw(t, "id"), Flags: rapid.Uint16().Draw(t, "flags")}
+	// about one packet in 40 has one section with more entries than an 8-bit counter holds: a few
+	// drawn entries repeated cyclically, made distinct (and their order observable) through the type
+	big, bigN := -1, 0
+	if rarely(t, "bigSection", 5) {
+		big = rapid.IntRange(0, 3).Draw(t, "bigWhich")
+		bigN = rapid.SampledFrom(bigCounts).Draw(t, "bigCount")
+	}
+	count := func(label string, sec int) (drawn, total int) {
+		if sec == big {
+			return rapid.IntRange(1, 3).Draw(t, label), bigN
+		}
+		n := rapid.IntRange(0, 3).Draw(t, label)
+		return n, n
+	}
 	name := func() nameCase {
 		sc := ""
 		if rapid.IntRange(0, 2).Draw(t, "scoped") == 0 {
@@ -284,12 +346,23 @@ func genPkt(t *rapid.T, maxRData int) pktCase {
 		}
 		return nameCase{genNameBytes(t), sc}
 	}
-	for i, n := 0, rapid.IntRange(0, 3).Draw(t, "nq"); i < n; i++ {
+	drawn, total := count("nq", 0)
+	for i := 0; i < drawn; i++ {
 		c.Questions = append(c.Questions, jQ{name(), rapid.Uint16().Draw(t, "qt"), rapid.Uint16().Draw(t, "qc")})
 	}
-	sec := func(label string) []jRR {
+	for i := drawn; i < total; i++ {
+		q := c.Questions[i%drawn]
+		q.Type += uint16(i / drawn)
+		c.Questions = append(c.Questions, q)
+	}
+	sec := func(label string, idx int) []jRR {
 		var out []jRR
-		for i, n := 0, rapid.IntRange(0, 3).Draw(t, label); i < n; i++ {
+		drawn, total := count(label, idx)
+		maxRData := maxRData
+		if total > drawn && maxRData > 40 {
+			maxRData = 40
+		}
+		for i := 0; i < drawn; i++ {
 			var rl int
 			switch rapid.IntRange(0, 3).Draw(t, "rdc") {
 			case 0:
@@ -303,10 +376,24 @@ func genPkt(t *rapid.T, maxRData int) pktCase {
 			}
 			out = append(out, jRR{name(), rapid.Uint16().Draw(t, "t"), rapid.Uint16().Draw(t, "c"), rapid.Uint32().Draw(t, "ttl"), rapid.SliceOfN(rapid.Byte(), rl, rl).Draw(t, "rd")})
 		}
+		for i := drawn; i < total; i++ {
+			r := out[i%drawn]
+			r.Type += uint16(i / drawn)
+			out = append(out, r)
+		}
 		return out
 	}
-	c.Answers, c.Authority, c.Additional = sec("nan"), sec("nns"), sec("nar")
+	c.Answers, c.Authority, c.Additional = sec("nan", 1), sec("nns", 2), sec("nar", 3)
 	return c
+}
+
+func classified(s *vf.Sub, chk func(pktCase) []vf.Finding) func(pktCase) []vf.Finding {
+	return func(c pktCase) []vf.Finding {
+		if len(c.Questions) > 255 || len(c.Answers) > 255 || len(c.Authority) > 255 || len(c.Additional) > 255 {
+			s.Class("section-over-255-entries")
+		}
+		return chk(c)
+	}
 }
 
 func pktNontrivial(c pktCase) bool {
@@ -315,12 +402,93 @@ func pktNontrivial(c pktCase) bool {
 
 func TestPacketRoundtrip(t *testing.T) {
 	s := vf.Begin(t, P, "packet-roundtrip")
-	vf.Rapid(s, vf.N(12000, 150000), func(t *rapid.T) pktCase { return genPkt(t, vf.N(600, 8000)) }, checkPacketRoundtrip, pktNontrivial)
+	vf.Rapid(s, vf.N(12000, 150000), func(t *rapid.T) pktCase { return genPkt(t, vf.Size(600, 8000)) }, classified(s, checkPacketRoundtrip), pktNontrivial)
 }
 
 func TestRefParse(t *testing.T) {
 	s := vf.Begin(t, P, "ref-parse")
-	vf.Rapid(s, vf.N(12000, 150000), func(t *rapid.T) pktCase { return genPkt(t, vf.N(600, 8000)) }, checkRefParse, pktNontrivial)
+	vf.Rapid(s, vf.N(12000, 150000), func(t *rapid.T) pktCase { return genPkt(t, vf.Size(600, 8000)) }, classified(s, checkRefParse), pktNontrivial)
+}
+
+// ---- receiver reuse --------------------------------------------------------------------------
+
+type reuseCase struct {
+	First  pktCase `json:"first"`
+	Second pktCase `json:"second"`
+}
+
+// describe renders a decoded packet field by field (names by value, not by pointer).
+func describe(p *nbtns.NBTNSPacket) []string {
+	name := func(n *nbtns.NetBIOSName) string {
+		if n == nil {
+			return "<nil>"
+		}
+		return fmt.Sprintf("%x/%q", n.Name, n.ScopeID)
+	}
+	out := []string{fmt.Sprintf("header %+v", p.Header)}
+	var qs []string
+	for _, q := range p.Questions {
+		qs = append(qs, fmt.Sprintf("%s %d %d", name(q.Name), q.Type, q.Class))
+	}
+	out = append(out, fmt.Sprintf("questions(%d) %v", len(qs), qs))
+	for _, sec := range []struct {
+		n  string
+		rr []nbtns.NBTNSResourceRecord
+	}{{"answers", p.Answers}, {"authority", p.Authority}, {"additional", p.Additional}} {
+		var rs []string
+		for _, r := range sec.rr {
+			rs = append(rs, fmt.Sprintf("%s %d %d %d %d %x", name(r.Name), r.Type, r.Class, r.TTL, r.RDLength, r.RData))
+		}
+		out = append(out, fmt.Sprintf("%s(%d) %v", sec.n, len(rs), rs))
+	}
+	return out
+}
+
+// checkReuse: a packet value that has already received one packet receives another one; what it
+// then holds must be what a fresh value holds after decoding the second packet alone (a server
+// loop that keeps one NBTNSPacket would otherwise answer questions of earlier datagrams).
+func checkReuse(c reuseCase) []vf.Finding {
+	w1, err := c.First.lib().Marshal()
+	if err != nil {
+		return []vf.Finding{vf.F("NBTNSPacket.Marshal", "valid-packet-rejected", "%v", err)}
+	}
+	w2, err := c.Second.lib().Marshal()
+	if err != nil {
+		return []vf.Finding{vf.F("NBTNSPacket.Marshal", "valid-packet-rejected", "%v", err)}
+	}
+	var fresh, reused nbtns.NBTNSPacket
+	if _, err := fresh.Unmarshal(w2); err != nil {
+		return []vf.Finding{vf.F("NBTNSPacket.Unmarshal", "own-encoding-rejected", "%v", err)}
+	}
+	if _, err := reused.Unmarshal(w1); err != nil {
+		return []vf.Finding{vf.F("NBTNSPacket.Unmarshal", "own-encoding-rejected", "%v", err)}
+	}
+	if _, err := reused.Unmarshal(w2); err != nil {
+		return []vf.Finding{vf.F("NBTNSPacket.Unmarshal", "own-encoding-rejected", "second packet into the same receiver: %v", err)}
+	}
+	var fs []vf.Finding
+	df, dr := describe(&fresh), describe(&reused)
+	for i, what := range []string{"header", "questions", "answers", "authority", "additional"} {
+		if df[i] != dr[i] {
+			fs = append(fs, vf.F("NBTNSPacket.Unmarshal", "reused-receiver-differs-from-fresh-decode:"+what, "after an earlier packet: %.300s; fresh: %.300s", dr[i], df[i]))
+		}
+	}
+	return fs
+}
+
+func TestUnmarshalReuse(t *testing.T) {
+	s := vf.Begin(t, P, "unmarshal-receiver-reuse")
+	vf.Rapid(s, vf.N(6000, 80000), func(t *rapid.T) reuseCase {
+		c := reuseCase{First: genPkt(t, 64)}
+		if rapid.IntRange(0, 3).Draw(t, "samePacket") == 0 {
+			c.Second = c.First
+		} else {
+			c.Second = genPkt(t, 64)
+		}
+		return c
+	}, checkReuse, func(c reuseCase) bool {
+		return len(c.First.Questions)+len(c.First.Answers)+len(c.First.Authority)+len(c.First.Additional) > 0
+	})
 }
 
 // RDATA lengths at the 16-bit limit (one record per packet)
@@ -331,7 +499,7 @@ func TestRDataLimits(t *testing.T) {
 		Len int `json:"rdata_len"`
 	}
 	vf.Enum(s, func(yield func(rc)) {
-		for _, l := range []int{0, 1, 255, 256, 511, 512, 513, 65534, 65535} {
+		for _, l := range []int{0, 1, 255, 256, 511, 512, 513, 32767, 32768, 65534, 65535} {
 			yield(rc{l})
 		}
 	}, func(c rc) []vf.Finding {
